@@ -56,6 +56,13 @@ def gen_cases(tier, seed):
             for si in range(n):
                 for so in range(m):
                     cases.append(dict(kind="resize", ishape=[n], oshape=[m], ishift=[si], oshift=[so]))
+    # only one of the two shifts given: the other one keeps its centring default
+    for n in range(1, 6):
+        for m in range(1, 7):
+            for si in range(n):
+                cases.append(dict(kind="resize", ishape=[n], oshape=[m], ishift=[si], oshift=None))
+            for so in range(m):
+                cases.append(dict(kind="resize", ishape=[n], oshape=[m], ishift=None, oshift=[so]))
     for osh in ([3, 4], [2, 5], [4, 3], [3, 5]):
         for si in itertools.product((0, 1), repeat=2):
             for so in itertools.product((0, 1), repeat=2):
@@ -134,7 +141,9 @@ def run_case(case, seed):
         ish, osh = case["ishape"], case["oshape"]
         si, so = case["ishift"], case["oshift"]
         src = im.resize_src(ish, osh, si, so)
-        when = "default shifts" if si is None else ("explicit shifts, oshape == ishape" if ish == osh else "explicit shifts")
+        when = "default shifts" if (si is None and so is None) else ("explicit shifts, oshape == ishape" if ish == osh else "explicit shifts")
+        if (si is None) != (so is None):
+            when = "only one of ishift/oshift given"
         if len(ish) != len(osh):
             when = "ndim-changing oshape"
         for dt in (np.complex128, np.float64):
@@ -157,7 +166,7 @@ def run_case(case, seed):
             if MH.shape != G.T.shape or not np.array_equal(MH, G.T.astype(complex)):
                 viol.append(dict(oracle="transpose", key=dict(site="linop.Resize.H", when=when),
                                  detail="adjoint is not the transpose of the gather map"))
-        nontrivial = not (ish == osh and si is None)
+        nontrivial = not (ish == osh and si is None and so is None)
     elif k == "flip":
         s, ax = case["shape"], case["axes"]
         src = im.flip_src(s, ax)
